@@ -30,8 +30,17 @@ func runC17(c *Ctx) {
 			}
 			n++
 			v := core.ProjField(rp.Results[0], "SkipPrivateHops")
-			ok := v.Op == "call" && strings.HasSuffix(v.Name, "getBoolParam") && len(v.Args) >= 2 && v.Args[1].IsConst("\"skip-private-hops\"")
-			R.Check(ok, "R17.1", "server.parseTracerouteParams#flag", rp.Ret.Pos(), core.FuncName(sf), "SkipPrivateHops = getBoolParam(query, \"skip-private-hops\", …)", "the HTTP parameters set SkipPrivateHops to "+v.String()+": the query key no longer reaches the flag")
+			// a decoder of the server package applied to the query with the key "skip-private-hops" (whatever the decoder is called)
+			ok := v.Op == "call" && strings.HasPrefix(v.Name, "server.")
+			if ok {
+				ok = false
+				for _, a := range v.Args {
+					if a.IsConst("\"skip-private-hops\"") {
+						ok = true
+					}
+				}
+			}
+			R.Check(ok, "R17.1", "server.parseTracerouteParams#flag", rp.Ret.Pos(), core.FuncName(sf), "SkipPrivateHops = <bool decoder>(query, \"skip-private-hops\", …)", "the HTTP parameters set SkipPrivateHops to "+v.String()+": the query key no longer reaches the flag")
 		}
 		R.Floor("R17.1:server-success-paths", n, 1)
 	}
@@ -102,15 +111,15 @@ func runC17(c *Ctx) {
 	if rt == nil {
 		R.Fail("R17.1", "traceroute.RunTraceroute#anchor", 0, "", "anchor RunTraceroute no longer resolves")
 	} else {
-		rps, _ := core.ReturnPaths(c.P, rt, 5000)
+		// inlined paths: the enrich / normalise / redact tail may have been moved into a helper with an options struct
 		nflag := 0
-		for _, rp := range rps {
-			if !rp.Results[1].IsConst("nil") {
+		for _, ip := range InlinedPaths(c.P, rt, inlineOpts{pkg: core.FuncPkg(rt), stop: runLayerStop}) {
+			if !ip.Results[1].IsConst("nil") {
 				continue
 			}
-			f1, s1 := atomTrue(rp.Atoms, func(t *core.Term) bool { return t.String() == "param:params.SkipPrivateHops" })
+			f1, s1 := atomTrue(ip.Atoms, func(t *core.Term) bool { return t.String() == "param:params.SkipPrivateHops" })
 			if !f1 {
-				R.FailPath("R17.1", core.FuncName(rt)+"#flag-consulted", rp.Ret.Pos(), core.FuncName(rt), "a success path does not consult SkipPrivateHops", rp.Path.String())
+				R.FailPath("R17.1", core.FuncName(rt)+"#flag-consulted", ip.Ret.Pos(), core.FuncName(rt), "a success path does not consult SkipPrivateHops", ip.Desc)
 				continue
 			}
 			if !s1 {
@@ -118,16 +127,12 @@ func runC17(c *Ctx) {
 			}
 			nflag++
 			passed := false
-			for _, b := range rp.Path.Blocks {
-				for _, in := range b.Instrs {
-					if call, ok := in.(*ssa.Call); ok && call.Common().StaticCallee() != nil && core.FuncName(call.Common().StaticCallee()) == "(*result.Results).RemovePrivateHops" {
-						if rp.Env.Term(call.Common().Args[0]).Key() == rp.Results[0].Key() {
-							passed = true
-						}
-					}
+			for _, ev := range ip.Events {
+				if ev.Kind == "call" && ev.Callee == "(*result.Results).RemovePrivateHops" && len(ev.Args) > 0 && ev.Args[0].Key() == ip.Results[0].Key() {
+					passed = true
 				}
 			}
-			R.Check(passed, "R17.1", core.FuncName(rt)+"#redacted", rp.Ret.Pos(), core.FuncName(rt), "with the flag set the returned document has passed through RemovePrivateHops", "with SkipPrivateHops set a success path returns the document without RemovePrivateHops having run on it")
+			R.Check(passed, "R17.1", core.FuncName(rt)+"#redacted", ip.Ret.Pos(), core.FuncName(rt), "with the flag set the returned document has passed through RemovePrivateHops", "with SkipPrivateHops set a success path returns the document without RemovePrivateHops having run on it")
 		}
 		R.Floor("R17.1:flag-true-paths", nflag, 1)
 	}
